@@ -60,6 +60,10 @@ func (e *Engine) callRefValue(ref callRef, st *State, t types.Type) Val {
 		if ev.Static != nil && (ev.Static.String() == ref.callee || staticFullName(ev.Static) == ref.callee) {
 			evs = append(evs, ev)
 		}
+		// interface method, written x.M where x has interface type: "(pkg.Iface).M" matches every invoke of M
+		if ev.Static == nil && ev.Iface != "" && strings.HasPrefix(ref.callee, "(") && strings.HasSuffix(ref.callee, ")."+ev.Callee) && !strings.HasPrefix(ref.callee, "(*") {
+			evs = append(evs, ev)
+		}
 	}
 	if ref.idx < 0 {
 		var gs []string
